@@ -649,7 +649,17 @@ class C06(Property):
             self.run_oracle(ctx, c)
 
     def run_oracle(self, ctx: Ctx, c):
-        d = ORACLES[c["oracle"]](ctx, c)
+        try:
+            d = ORACLES[c["oracle"]](ctx, c)
+        except Exception as e:  # noqa  — an exception of the implementation is a reported, replayable case, never a silent skip
+            import traceback
+
+            tb = traceback.extract_tb(e.__traceback__)
+            where = next((f"{fr.filename.split('/')[-1]}:{fr.name}" for fr in reversed(tb) if "/abtem/" in fr.filename), "harness")
+            ctx.violation("raises:%s:%s:%s:%s:%s" % (c["oracle"], c["potential"], c["detector"], "lazy" if c["lazy"] else "eager", where), c,
+                          {"what": "the implementation raised", "error": f"{type(e).__name__}: {e}"[:300],
+                           "frames": [f"{fr.filename.split('/')[-1]}:{fr.lineno}:{fr.name}" for fr in tb[-6:]]})
+            d = float("inf")
         ctx.count("%s:%s:%s:interp=%s" % (c["oracle"], c["potential"], "lazy" if c["lazy"] else "eager",
                                           "x".join(map(str, c["interpolation"]))))
         ctx.case(c, nontrivial=bool(c["aberrations"]) or c["potential"] != "none")
